@@ -900,6 +900,10 @@ def replay_findings(chk, impl):
 # ------------------------------------------------------------------------------------------------ replay
 def replay(chk, obj):
     impl = Impl()
+    if obj.get("replay", {}).get("kind") == "default-schema-spelling":
+        n0 = len(chk.violations)
+        part_default_schema_spelling(chk, impl)
+        return 1 if len(chk.violations) > n0 else 0
     r = obj["replay"]
     kind = r.get("kind")
     if kind == "direct":
@@ -938,8 +942,46 @@ def replay(chk, obj):
 
 
 # ------------------------------------------------------------------------------------------------ run
+def part_default_schema_spelling(chk, impl):
+    """the default schema is an identifier too: spelled `ODS` (unquoted, through the environment variable or a scoped override) it
+    denotes the schema that the qualifier `ODS` denotes in the text - so an unqualified `tgt` and a written `ODS.tgt` are the same
+    table, compare equal, hash equally, and the chain through it connects (seeded change C16-4)."""
+    n = 0
+    for S in ("ODS", "Zq9X", "mixedCase_s"):
+        for mech in ("env", "scoped"):
+            sql = f"insert into {S}.tgt select a from {S}.src; insert into rpt select a from tgt"
+            cm = None
+            try:
+                if mech == "env":
+                    os.environ["SQLLINEAGE_DEFAULT_SCHEMA"] = S
+                else:
+                    cm = impl.cfg(DEFAULT_SCHEMA=S)
+                    cm.__enter__()
+                for d in ("ansi", "non-validating"):
+                    got = run_sql(impl, sql, d)
+                    a, b = impl.Table("tgt"), impl.Table(f"{S}.tgt")
+                    same = (a == b, hash(a) == hash(b), str(a) == str(b))
+                    n += 1
+                    chk.count("default-schema-spelling:" + canon_json([S, mech, d]), True)
+                    low = S.lower()
+                    ok = got.get("status") == "ok" and got["inter"] == [f"{low}.tgt"] and \
+                        [f"{low}.src.a", f"{low}.tgt.a", f"{low}.rpt.a"] in got["paths"] and same == (True, True, True)
+                    if not ok:
+                        chk.violation(f"the default schema {S!r} (set through {mech}) and the qualifier {S!r} written in the text denote "
+                                      "different schemas: the chain through the unqualified table breaks / the two tables differ",
+                                      {"kind": "default-schema-spelling", "schema": S, "mechanism": mech, "dialect": d, "sql": sql,
+                                       "got": got, "table_eq_hash_str": list(same)})
+                        return n
+            finally:
+                if cm is not None:
+                    cm.__exit__(None, None, None)
+                os.environ.pop("SQLLINEAGE_DEFAULT_SCHEMA", None)
+    return n
+
+
 def run(chk):
     impl = Impl()
+    chk.coverage["default_schema_spelling_runs"] = part_default_schema_spelling(chk, impl)
     drv = Driver() if chk.lean.driver_ok else None
     if drv is None:
         chk.stale.append({"kind": "driver", "why": "model driver does not build"})
